@@ -282,6 +282,7 @@ Definition pat_eqb (p q : pat) : bool := fname_eqb (pat_file p 0) (pat_file q 0)
 Definition op_eqb (a b : op) : bool :=
   match a, b with
   | Truncate f, Truncate g => fname_eqb f g
+  | Truncate f, Write g _ | Write f _, Truncate g => fname_eqb f g   (* a trace shows open(f,'w'), not whether anything is written *)
   | Write f _, Write g _ => fname_eqb f g
   | Append f _, Append g _ => fname_eqb f g
   | Read f, Read g => fname_eqb f g
@@ -467,3 +468,28 @@ Section Memo.
     end.
   Definition cache_ok (xvar : X) (cache : option G) : Prop := cache = None \/ cache = Some (grid xvar).
 End Memo.
+
+(* ------------------------------------------------------------------ histories of completed ESR calls *)
+(* any of the stage programs above, with any parameters (other bases, other complexities, other runs,
+   any rank counts, repeats) *)
+Inductive esr_stage : prog -> Prop :=
+| St_gen : forall b n G, esr_stage (generation_prog b n G)
+| St_ctor : forall d, esr_stage (ctor_prog d)
+| St_fit : forall run b n prev ms, esr_stage (fit_prog run b n prev ms)
+| St_fisher : forall run b n P, esr_stage (fisher_prog run b n P)
+| St_match : forall run b n blks, esr_stage (match_prog run b n blks)
+| St_combine : forall run b n P m, esr_stage (combine_prog run b n P m).
+Definition esr_history (h : list prog) : Prop := Forall esr_stage h.
+
+(* a toy instantiation used by the Examples: records are numbers, write site g writes the record g
+   followed by the number of values read so far *)
+Definition toy_interp (g : nat) (rd : list (obs nat)) : contents nat := [g; length rd].
+Definition empty_store : store nat := fun _ => None.
+
+(* example data for Props/C16.v *)
+Definition G3 : genparams :=       (* the shape parameters of core_maths, complexity 3 (as traced) *)
+  mkGen [[]; [(1, [KOther 0; KOther 1; KBase 5]); (1, [KOther 0; KOther 1; KBase 5])]; []]
+        [(2, [KOther 0; KParam 0; KParam 1; KBase 0; KBase 3; KBase 5]); (2, [KOther 0; KOther 1; KBase 5])]
+        [((2, [KOther 0; KOther 1; KParam 0]), true); ((2, []), false); ((2, []), false)]
+        (2, [KOther 0; KOther 1; KParam 0; KBase 5]).
+
